@@ -31,6 +31,9 @@ HDat == {"d1", "garbage"}
 \* a local stream writer process can be the target of an inbound message like any other registered process
 TW == [a |-> "node", i |-> "stream/127.0.0.1:1"]
 HTgW == {<<TW>>, <<T1, TW>>}
+\* so can the response process of an outstanding request (its owner collects the result a moment later)
+TR == [a |-> "node", i |-> "response/live"]
+HTgR == {<<TR>>, <<T1, TR>>}
 \* streams of two envelopes: the tables of the second one are shorter / different
 HTy2 == {<<"remote.TestMessage">>, <<"remote.TestMessage", "actor.Ping">>, <<"actor.Ping", "remote.TestMessage">>}
 HTg1 == {<<T1>>, <<T1, TC1>>}
